@@ -384,9 +384,10 @@ fn check_shape_inner(s: &Shape, ctx: &mut Ctx) -> Verdict {
                 }
                 Outcome::Value(v) if !any_catch => {
                     return Verdict::fail(
+                        // outermost wrapper and placement (the whole stack is in the detail)
                         format!(
                             "invalid-value-masked/{:?}/{:?}",
-                            s.stack.iter().map(|x| x.0).collect::<Vec<_>>(),
+                            s.stack.last().map(|x| x.0),
                             s.ctxt
                         ),
                         format!(
@@ -476,7 +477,7 @@ fn check_shape_inner(s: &Shape, ctx: &mut Ctx) -> Verdict {
         (Some(_), other) => Verdict::fail(
             format!(
                 "absent-defaulted-item-fails/{:?}/{:?}",
-                s.stack.iter().map(|x| x.0).collect::<Vec<_>>(),
+                s.stack.last().map(|x| x.0),
                 s.ctxt
             ),
             format!(
